@@ -38,10 +38,11 @@ def run_case(case):
     ident = {id(v): k for k, v in pool.items()}
     for k, lab in case.get("prelabels", {}).items():
         pool[int(k)].add_metadata({"order_label": lab})
+    kw = dict(t_slew=case["t_slew"], t_overwrite=True) if case.get("t_slew") is not None else {}     # the flag only re-times the frames given at construction (none here)
     if case["ordered"]:
-        cad = stg.OrderedCadence(order=case["order"])
+        cad = stg.OrderedCadence(order=case["order"], **kw)
     else:
-        cad = stg.Cadence()
+        cad = stg.Cadence(**kw)
     frame_ids = [o["id"] for o in case["pool"] if o["kind"] == "frame"]
 
     def ids(seq):
